@@ -84,10 +84,13 @@ def run(ck):
                "the two activity coefficients must derive from one excess Gibbs energy",
                found=lambda: "residual with %d terms: %s" % (gd.num.nterms(), poly.rat_str(gd, 6)), sample=True)
         # pure limits
-        z1 = subst(l1, {x.id: Rat.const(1)})
-        z2 = subst(l2, {x.id: Rat.const(0)})
-        sck.ob("A3", f.qualname, "gamma_1 -> 1 as component 1 becomes pure [%s]" % model, where, z1.is_zero(), found=lambda: str(z1))
-        sck.ob("A3", f.qualname, "gamma_2 -> 1 as component 2 becomes pure [%s]" % model, where, z2.is_zero(), found=lambda: str(z2))
+        for which, lg, at in (("1", l1, 1), ("2", l2, 0)):
+            try:
+                z = subst(lg, {x.id: Rat.const(at)})
+                okz, fz = z.is_zero(), str(z)[:300]
+            except poly.Unmodelled as e:
+                okz, fz = False, "the limit does not exist: %s" % e
+            sck.ob("A3", f.qualname, "gamma_%s -> 1 as component %s becomes pure [%s]" % (which, which, model), where, okz, found=fz)
         # relabelling symmetry
         sg = Sigma(repo, fixed_paths=("mixture.nrtl_params.alpha12",) if (model == "NRTL" and a21 == "none") else ())
         a1, a2 = addends(g1), addends(g2)
